@@ -522,12 +522,21 @@ func runWith(w *core.Worker, c Case, sp int) {
 				rev[len(want)-1-i] = x
 			}
 			if c.T == "float" {
-				got, err := gogu.Range(c.Args...)
-				gotR, errR := gogu.RangeRight(c.Args...)
+				// the spread argument list carries spare capacity in two of three cases
+				fa := make([]float64, len(c.Args), len(c.Args)+2*sp)
+				copy(fa, c.Args)
+				for i, rest := 0, fa[len(fa):cap(fa)]; i < len(rest); i++ {
+					rest[i] = float64(3 + i)
+				}
+				got, err := gogu.Range(fa...)
+				gotR, errR := gogu.RangeRight(fa...)
 				judge(fail, c, got, err, want, mustErr, mayErr, "Range")
 				judge(fail, c, gotR, errR, rev, mustErr, mayErr, "RangeRight")
 			} else {
-				ia := make([]int, len(c.Args))
+				ia := make([]int, len(c.Args), len(c.Args)+2*sp)
+				for i, rest := 0, ia[len(ia):cap(ia)]; i < len(rest); i++ {
+					rest[i] = 3 + i
+				}
 				for i, a := range c.Args {
 					ia[i] = int(a)
 				}
